@@ -84,13 +84,51 @@ def gen_case(rng: random.Random, i: int) -> dict:
         return {"clock": clock, "strategy": "pause", "prog": prog,
                 "cmds": [["init", 0, u * rng.randint(0, 14), u * rng.randint(10, 18)], ["start"]]}
     prog = S.gen_program(rng, clock, p_illegal=0.14, p_cancel=0.14)
+    if i % 6 == 1:
+        return two_replications(rng, clock, prog)
     if clock != "int" and rng.random() < 0.3:
         # malformed stream, inexact part: a negative delay (or a past time) so small that clock + delay rounds to the clock
         for _ in range(rng.randint(1, 3)):
             h = rng.randint(1, len(prog) - 1)
             tok = rng.choice([["rel", "tinyneg1"], ["rel", "tinyneg2"], ["rel", "tinyneg3"], ["rel", "tinyneg1"], ["abs", "tinypast"]])
             prog[h].insert(rng.randint(0, len(prog[h])), ["sched", tok, rng.choice(S.PRIOS), rng.randint(1, len(prog) - 1)])
-    return {"clock": clock, "strategy": "pause", "prog": prog, "cmds": [S.gen_repl(rng, clock), ["start"]]}
+    init = gen_repl(rng, clock)
+    past_before(prog, init[1])
+    return {"clock": clock, "strategy": "pause", "prog": prog, "cmds": [init, ["start"]]}
+
+
+def past_before(prog, start):
+    """the generator's "absolute time in the past" requests are negative times: keep them before the replication start"""
+    if start < 0:
+        for body in prog:
+            for a in body:
+                if a[0] == "sched" and a[1][0] == "abs" and isinstance(a[1][1], int) and a[1][1] < 0:
+                    a[1][1] += start
+
+
+def gen_repl(rng: random.Random, clock: str, horizon=64):
+    """replication with a start time that is mostly not the simulator's initial clock 0: positive or negative"""
+    u = S.unit_of(clock)
+    start = u * rng.choice([0, 0, 2, 8, 10, -2, -8, -12, 1, 3])
+    length = u * rng.randint(2, horizon // u)
+    end = start + length
+    w = rng.random()
+    warm = start if w < 0.15 else (start + u * rng.randint(0, length // u) if w < 0.85 else end + u * rng.randint(0, 4))
+    return ["init", start, warm, end]
+
+
+def two_replications(rng: random.Random, clock: str, prog) -> dict:
+    """a second replication on the used simulator: its start differs from where the first one left the clock"""
+    u = S.unit_of(clock)
+    prog[0] = [a for a in prog[0] if not (a[0] == "sched" and a[1][0] == "abs")]        # keep construct relative to the start
+    for _ in range(rng.randint(1, 3)):
+        prog[0].append(["sched", rng.choice([["now"], ["rel", u * rng.randint(0, 6)], ["rel", u * rng.randint(0, 6)]]),
+                        rng.choice(S.PRIOS), rng.randint(1, len(prog) - 1)])
+    first = gen_repl(rng, clock)
+    second = gen_repl(rng, clock)
+    between = rng.choice([[["start"]], [["start"]], [["runupto", first[1] + u * rng.randint(0, 8)]], [["step"], ["step"]], []])
+    past_before(prog, min(first[1], second[1]))
+    return {"clock": clock, "strategy": "pause", "prog": prog, "cmds": [first] + between + [second, ["start"]]}
 
 
 TOKENS = {"tinyneg1": " (delay -1e-15)", "tinyneg2": " (delay -5e-324)", "tinyneg3": " (delay -2**-60)",
@@ -112,7 +150,8 @@ def illegal(mode, clock_q):
 def oracle(case: dict, obs: dict):
     """Returns (signature, description) of the first violated clause, or None;
     plus a dict of non-triviality facts."""
-    facts = {"ties": False, "cancel_pending": False, "illegal": False, "zero_delay": False, "executed": 0}
+    facts = {"ties": False, "cancel_pending": False, "illegal": False, "zero_delay": False,
+             "nonzero_start_construct_sched": False, "second_replication": False, "executed": 0}
     why = S.representable(obs)
     if why is not None and "error" in obs:
         return ("driver-error", why), facts
@@ -123,15 +162,61 @@ def oracle(case: dict, obs: dict):
     bad_clock = S.log_insane(obs)
     if bad_clock:
         return ("clock-not-an-exact-number", bad_clock), facts
-    for c in case["cmds"]:
-        if c[0] == "init":
-            end = c[3]
+    log = obs["log"]
+    # replication blocks: the entries construct_model logs come before the entry of their (accepted) initialize
+    block_at, prev = {}, -1
+    for i, e in enumerate(log):
+        if e[0] == "cmd":
+            if e[1][0] == "init" and e[2] == "ok":
+                block_at[prev + 1] = e[1]
+            prev = i
     pending = {}          # k -> (time, -prio, k)
     executed = []
     cancelled = set()
     last_clock = None
     pending_ever = []
-    for ent in obs["log"]:
+    start = None
+    in_construct = False
+    last_cmd = None
+    n_blocks = 0
+
+    def close_block():
+        """the replication that just finished (or the last one): nothing within the horizon may be left"""
+        facts["executed"] = max(facts.get("executed", 0), len(executed))
+        if last_cmd is not None and last_cmd[3] == "ENDED" and end is not None:
+            excl = last_cmd[1][0] == "runupto" and last_cmd[1][1] == end      # ended by an exclusive cut exactly at the end
+            left = [v for v in pending.values() if v[0] < end or (v[0] == end and not excl)]
+            if left:
+                return ("event-within-horizon-not-executed",
+                        f"events {left} (time, -prio, creation rank; rank x.5 = the warm-up event) never ran although the replication ended at {end}/4")
+            if last_cmd[5] != end:
+                return ("final-clock-not-end", f"final clock {last_cmd[5]}/4, end {end}/4")
+        return None
+
+    for j, ent in enumerate(log):
+        if j in block_at:
+            bad = close_block()
+            if bad:
+                return bad, facts
+            ini = block_at[j]
+            start, end = ini[1], ini[3]
+            pending, executed, cancelled, pending_ever = {}, [], set(), []
+            last_clock = start          # initialize puts the clock at the replication start, before construct_model
+            in_construct = True
+            n_blocks += 1
+            if n_blocks > 1:
+                facts["second_replication"] = True
+        if ent[0] == "cmd":
+            last_cmd = ent
+            if ent[1][0] == "init" and ent[2] == "ok":
+                in_construct = False
+        if ent[0] == "sched" and in_construct and isinstance(ent[2], int):
+            if ent[2] != start:
+                return ("clock-during-construct-model-is-not-the-replication-start",
+                        f"scheduling request {ent[1]} in construct_model saw clock {ent[2]}/4, the replication starts at {start}/4 "
+                        f"(replication no. {n_blocks} of this simulator)"), facts
+            if start != 0 and ent[1][0] in ("now", "rel"):
+                facts["nonzero_start_construct_sched"] = True
         if ent[0] == "sched":
             _, mode, clk, outc, s0, s1, cr = ent
             if outc not in ("acc", "ref"):
@@ -207,14 +292,10 @@ def oracle(case: dict, obs: dict):
             last_clock = clk
             executed.append(k)
             del pending[k]
-    facts["executed"] = len(executed)
-    if obs["snaps"] and obs["snaps"][-1][1] == "ENDED":
-        left = [v for v in pending.values() if v[0] <= end]
-        if left:
-            return ("event-within-horizon-not-executed",
-                    f"events {left} (time, -prio, creation rank; rank x.5 = the warm-up event) never ran although the replication ended at {end}/4"), facts
-        if obs["snaps"][-1][3] != end:
-            return ("final-clock-not-end", f"final clock {obs['snaps'][-1][3]}/4, end {end}/4"), facts
+    facts["executed"] = max(facts.get("executed", 0), len(executed))
+    bad = close_block()
+    if bad:
+        return bad, facts
     if obs.get("notes"):
         return ("simulator-did-not-come-to-rest", "; ".join(obs["notes"])), facts
     if why is not None:
@@ -380,7 +461,8 @@ def main(tier: str, pid=PID, gen=gen_case, oracle_fn=oracle, n_quick=4000, n_tho
                                "float / Duration clocks, negative delays below half an ulp of the clock (-1e-15, -5e-324, -2^-60) and times a few ulps before the clock; "
                                "every third case a cancel-stress program: 7-16 events pending at once, handlers that mostly cancel; a quarter of the cases on a "
                                "second exact scale of 2^-40 time units (Duration / float clocks) with event times one to three steps apart and "
-                               "priorities / scheduling order arranged against the time order) "
+                               "priorities / scheduling order arranged against the time order; replication start times 0, positive and negative with now / "
+                               "relative / absolute scheduling inside construct_model; every sixth case a second replication on the used simulator) "
                                "x 4 clock kinds (int, float, Duration s, Duration min), run with initialize+start; non-trivial = distinct case "
                                "executing >= 3 events and exercising at least one of: time tie, cancel of a pending event, illegal request, zero delay")
     run.cov["feature_histogram"] = hist
